@@ -9,6 +9,7 @@ use vcommon::ev::{Ctx, Tier};
 
 mod c01;
 mod c02;
+mod c03;
 mod c04;
 mod c07;
 
@@ -29,6 +30,11 @@ const PROPS: &[PropDef] = &[PropDef {
     level: "exploration",
     run: c02::run,
     replay: c02::replay,
+}, PropDef {
+    id: "C03",
+    level: "exploration",
+    run: c03::run,
+    replay: c03::replay,
 }, PropDef {
     id: "C04",
     level: "exploration",
